@@ -111,6 +111,31 @@ class Ctx:
         self.tq += time.time() - t
         return r
 
+    def reach_check(self):
+        """is the final path condition satisfiable (vacuity guard)?  nlsat on the purified formulas first, then the
+        default solver, both with a short budget; `unknown` is reported as such and is not treated as vacuous"""
+        pur = _purify_for_nlsat(list(self.pc))
+        if pur is not None:
+            self.nq += 1
+            t1 = time.time()
+            ns = _nlsat_solver()
+            ns.set("timeout", 10000)
+            r = _guarded_check(ns, pur[0], 10000)
+            self.tq += time.time() - t1
+            if r != z3.unknown:
+                return str(r)
+        self.set_timeout(min(10000, self.timeout_ms))
+        r = self.check()
+        self.set_timeout(self.timeout_ms)
+        return str(r)
+
+    def _check_with(self, hyps, extra):
+        self.nq += 1
+        t = time.time()
+        r = _guarded_check(self.s, list(hyps) + [extra], self._cur_timeout())
+        self.tq += time.time() - t
+        return r
+
     def _cur_timeout(self):
         return getattr(self, "_tmo_now", self.timeout_ms)
 
@@ -128,8 +153,19 @@ class Ctx:
         if i < len(self.prefix):
             v = self.prefix[i]
         else:
+            # feasibility against the hypotheses that share a symbol with the condition (cone of influence):
+            # `unsat` under fewer hypotheses is still `unsat`; a spurious `sat` only adds a path whose
+            # obligations are then proved under the full path condition
+            self.set_timeout(min(2000, self.timeout_ms))
             t = self.check(cond)
             f = self.check(z3.Not(cond))
+            self.set_timeout(self.timeout_ms)
+            if t == z3.unknown or f == z3.unknown:
+                cone = _cone(self.pc, cond)
+                if t == z3.unknown:
+                    t = self._check_with(cone, cond)
+                if f == z3.unknown:
+                    f = self._check_with(cone, z3.Not(cond))
             if t == z3.unknown or f == z3.unknown:
                 self.branch_unknown += 1
             tf = t != z3.unsat
@@ -492,7 +528,7 @@ def explore(fn, max_paths=2000, timeout_ms=20000, pin=None, deadline=None):
             paths.append(c)
             c.ret = out
             if pin is None and any(not r.get("canary") for r in c.results):
-                reach = str(c.check())
+                reach = c.reach_check()
                 for r in c.results:
                     if r.get("reach") == "deferred":
                         r["reach"] = "sat" if r["result"] == "sat" else reach
@@ -843,6 +879,9 @@ class SNum:
 
     conj = conjugate
 
+    def item(self):
+        return self
+
     @property
     def real(self):
         return self
@@ -1181,7 +1220,64 @@ class SComplex:
         return f"SC({self.re.e}, {self.im.e})"
 
 
+def ratform(t, _cache=None):
+    """(numerator, denominator) of a real term as division-free z3 terms"""
+    cache = {} if _cache is None else _cache
+    k = t.get_id()
+    if k in cache:
+        return cache[k]
+    one = z3.RealVal(1)
+    if not z3.is_app(t) or t.num_args() == 0:
+        r = (t, one)
+    else:
+        kind = t.decl().kind()
+        ch = t.children()
+        if kind == z3.Z3_OP_DIV:
+            (n1, d1), (n2, d2) = ratform(ch[0], cache), ratform(ch[1], cache)
+            r = (n1 * d2, d1 * n2)
+        elif kind == z3.Z3_OP_MUL:
+            n, d = one, one
+            for c_ in ch:
+                a, b = ratform(c_, cache)
+                n, d = n * a, d * b
+            r = (n, d)
+        elif kind in (z3.Z3_OP_ADD, z3.Z3_OP_SUB):
+            parts = [ratform(c_, cache) for c_ in ch]
+            if all(z3.is_rational_value(z3.simplify(p[1])) and z3.simplify(p[1]).as_fraction() == 1 for p in parts):
+                r = (t, one)
+            else:
+                den = one
+                for _, b in parts:
+                    den = den * b
+                num = None
+                for i, (a, b) in enumerate(parts):
+                    term = a
+                    for j, (_, b2) in enumerate(parts):
+                        if j != i:
+                            term = term * b2
+                    if kind == z3.Z3_OP_SUB and i > 0:
+                        term = -term
+                    num = term if num is None else num + term
+                r = (num, den)
+        elif kind == z3.Z3_OP_UMINUS:
+            a, b = ratform(ch[0], cache)
+            r = (-a, b)
+        else:
+            r = (t, one)
+    cache[k] = r
+    return r
+
+
 def turns_mod1_eq(t1, t2):
+    n1, d1 = ratform(_real(_z(t1)))
+    n2, d2 = ratform(_real(_z(t2)))
+    cross = z3.simplify(n1 * d2 - n2 * d1, som=True)
+    if z3.is_rational_value(cross) and cross.as_fraction() == 0:
+        return z3.BoolVal(True)  # identical as rational functions (denominators are non-zero quantities: PI, wavelength, sampling)
+    return _turns_mod1_eq_plain(t1, t2)
+
+
+def _turns_mod1_eq_plain(t1, t2):
     """exp(2 pi i t1) == exp(2 pi i t2)"""
     d = z3.simplify(_real(_z(t1)) - _real(_z(t2)), som=True)
     if z3.is_rational_value(d):
